@@ -80,6 +80,14 @@ def problem(name, dtype):
         def f(t, y):
             return -20.0 * np.sign(y) + 0.0 * y
         return f
+    if name == "steeplate":    # gentle at first, steep near |t| = 1: the controller grows dt, then has to reject the (clamped) last step
+        def f(t, y):
+            return -y * (1.0 + 4000.0 * max(0.0, abs(t) - 0.7) ** 2)
+        return f
+    if name == "tdepsmall":    # y' = -2 t y^2 / A, y(0) = A = 2^-20  =>  y = A / (1 + t^2): a small-amplitude solution (rtol and atol matter differently)
+        def f(t, y):
+            return -2 * t * y * y * 1048576.0
+        return f
     if name == "nanwall":      # smooth for |t| < 1/2, undefined beyond: no step can be taken across the wall
         def f(t, y):
             return -y if abs(t) < 0.5 else np.nan * y
@@ -166,7 +174,7 @@ def run(sc, detail_rhs=False, keep_system=False):
     with traced.session(detail_rhs=detail_rhs) as lg:
         rhs = traced.WrappedRhs(f, lg, jac=(jacobian(sc.get("problem", "osc")) if sc.get("userjac") else None))
         lg.fault_plan = traced.FaultPlan()
-        lg.rhs_budget = int(sc.get("budget", 400000))
+        lg.rhs_budget = int(sc.get("budget", 120000))
         kw = {}
         if sc.get("rtol") is not None:
             kw["rtol"] = sc["rtol"]
@@ -552,7 +560,7 @@ def run_plain(sc):
     """Execute the scenario on a plain de.OdeSystem.  Returns dict(t, y, ok, err, nfev, events, dt, status)."""
     dt = np.dtype(sc.get("dtype", "float64"))
     f0 = problem(sc.get("problem", "osc"), dt)
-    budget = int(sc.get("budget", 400000))
+    budget = int(sc.get("budget", 120000))
     if sc.get("reflect"):
         def f1(t, y):
             return -f0(-t, y)
